@@ -44,6 +44,12 @@ LINKS = ['feat_symlink', 'feat_dangling_link', 'match_links']                   
 # repair in fixes/C04-matches-listing-follows-links.patch).  Once that repair is in /repo, append 'match_links' to LINKS.
 FEATURE_SIDE = ['feat_unlisted', 'feat_missing', 'match_unknown', 'obs_missing_type', 'obs_missing_image']
 VERSIONS_MAIN = ['1.1', '1.0', '1.2']
+# skip_list: the class names (kapture.<name>) of the parts the loader can be told not to load
+REC_CLASS = {kd: 'Records' + kd.capitalize() for kd in RKINDS}
+FEAT_CLASS = {'keypoints': 'Keypoints', 'descriptors': 'Descriptors', 'global_features': 'GlobalFeatures'}
+SKIPPABLE = (['Rigs', 'Trajectories'] + [REC_CLASS[kd] for kd in RKINDS] + [FEAT_CLASS[fk] for fk in FKINDS]
+             + ['Matches', 'Points3d', 'Observations'])
+CAMERA_DEPENDENTS = ['Keypoints', 'Descriptors', 'GlobalFeatures', 'Matches', 'Observations']
 THR_NUM, THR_DEN = 9907919180215093, 9007199254740992      # only used to build interesting version strings
 
 RULE = ('case = valid dataset written by kapture_to_dir (random sensors of all 10 kinds, rigs incl. rigs of rigs, trajectories, '
@@ -55,7 +61,9 @@ RULE = ('case = valid dataset written by kapture_to_dir (random sensors of all 1
         'without handlers) x optional pairs file + structural deletions (whole files / folders) + 3 ways of leaving no camera '
         'record (header-only file, all sensors undeclared, all cameras re-declared as lidar) x {tar, folder} + feature data '
         'reached through symbolic links (linked sub-folders inside / outside the dataset, linked files, links leading nowhere) '
-        '+ image names that are not normalised (folder storage). quick: all single classes and '
+        '+ image names that are not normalised (folder storage) + skip_list (every skippable part alone and with the parts that '
+        'depend on it, rigs skipped with a collision, all parts, duplicates / kapture.Sensors in the list, skipped parts that do '
+        'not exist, 40 random datasets with random skip lists). quick: all single classes and '
         'pairs on a fixed base + random; thorough: all 2^12 class subsets x {folder, tar} on a fixed base (x 3 versions for the '
         '2^8 subsets of 8 classes) + 10x random. Non-trivial = at least one raw entry is dropped by the loader or the load is '
         'refused; distinct = distinct case descriptions.')
@@ -90,8 +98,8 @@ LEVEL_TEXT = ('Theorems in coq/Props/C04.v hold for every raw directory: wheneve
               '(kapture_to_dir output + injected dangling entries, folder and tar storage, many version strings) and comparing '
               'every part of the loaded dataset, or the exception class, inside Coq.')
 LEVEL_NOTE = ('Trusted: Coq kernel + vm_compute, harness reader/encoders, CPython float rounding, file-system and tarfile listing. '
-              'Text parsing is C01/C02. Path normalisation of image names, non-ASCII version digits, malformed descriptor files and '
-              'skip_list are not modelled.')
+              'Text parsing is C01/C02. Path normalisation of image names, non-ASCII version digits and malformed descriptor files '
+              'are not modelled. skip_list is modelled (a skipped part = a part that does not exist) and compared.')
 
 
 # ---------------------------------------------------------------------------------------------- generation
@@ -355,9 +363,20 @@ def apply_class(case, cls, rng):
         raise ValueError(cls)
 
 
-def _mk(base, classes, rng, ver='1.1', mode='dir', pairs=None, del_paths=()):
+def _skip_closure(skip):
+    """Extend a skip list with the parts whose load would make the loader assert (so that the load goes through)."""
+    out = list(skip)
+    if 'RecordsCamera' in out:
+        out += [p for p in CAMERA_DEPENDENTS if p not in out]
+    if ('Keypoints' in out or 'Points3d' in out) and 'Observations' not in out:
+        out.append('Observations')
+    return out
+
+
+def _mk(base, classes, rng, ver='1.1', mode='dir', pairs=None, del_paths=(), skip=()):
     case = {'ver': None if ver is None else ('# kapture format: ' + ver if not ver.startswith('#') else ver),
-            'mode': mode, 'pairs': pairs, 'base': base, 'inj': _empty_inj(), 'classes': list(classes)}
+            'mode': mode, 'pairs': pairs, 'base': base, 'inj': _empty_inj(), 'classes': list(classes),
+            'skip': list(skip)}
     for c in classes:
         apply_class(case, c, rng)
     case['inj']['del_paths'] = list(del_paths)
@@ -509,6 +528,49 @@ def gen_cases(rng, tier):
             dp = [rng.choice(['sensors/rigs.txt', 'sensors/trajectories.txt', 'reconstruction/points3d.txt',
                               'reconstruction/observations.txt', 'reconstruction/matches'])]
         cases.append(_mk(base, sub, rng, ver, mode, pairs=pairs, del_paths=dp))
+    # 7. skip_list (drawn after everything else: the streams above are the same as without it)
+    modes2 = ['dir', 'tar']
+    for n, p in enumerate(SKIPPABLE + ['Sensors']):
+        cases.append(_mk(fb(), [], rng, '1.1', modes2[n % 2], skip=[p]))                    # alone: asserts for 3 of them
+        cases.append(_mk(fb(), CLASSES[:-1], rng, '1.1', modes2[(n + 1) % 2], skip=_skip_closure([p])))
+    for sk, cl, ver, mode in (
+            (['Rigs'], ['collision'], '1.1', 'dir'), (['Rigs'], ['collision', 'traj_unknown'], '1.1', 'tar'),
+            (['Trajectories'], ['collision'], '1.1', 'dir'),
+            (['Rigs', 'Trajectories'], ['rig_nested_dangling'], '1.1', 'dir'),
+            (['Rigs'], ['rig_nested_dangling', 'traj_unknown', 'rig_unknown_member'], '1.0', 'dir'),
+            (['Keypoints', 'Observations'], ['feat_unlisted', 'obs_missing_image'], '1.1', 'tar'),
+            (['Points3d', 'Observations'], ['obs_missing_type'], '1.1', 'dir'),
+            (['Observations', 'Matches', 'Matches', 'Rigs', 'Observations'], ['match_unknown'], '1.1', 'dir'),
+            (list(reversed(SKIPPABLE)), CLASSES[:-1], '1.1', 'dir'), (list(SKIPPABLE), CLASSES, '1.1', 'tar'),
+            (['Keypoints', 'Descriptors', 'GlobalFeatures', 'Matches', 'Points3d', 'Observations'], ['rec_unknown'], '1.0', 'tar'),
+            (['RecordsCamera'], [], '1.0', 'dir'), (['Keypoints'], [], '1.2', 'dir'),
+            (['Descriptors', 'RecordsLidar'], ['feat_missing', 'rec_wrongkind'], '1.1', 'tar-nohandler'),
+            (_skip_closure(['RecordsCamera']), ['cam_all_undeclared', 'feat_unlisted'], '1.1', 'tar'),
+            (['GlobalFeatures'], ['feat_symlink', 'feat_dangling_link'], '1.1', 'dir')):
+        cases.append(_mk(fb(), cl, rng, ver, mode, skip=sk))
+    cases.append(_mk(fb(), ['match_unknown'], rng, '1.1', 'dir', pairs=_pairs_for(fixed, rng), skip=['Keypoints', 'Observations']))
+    cases.append(_mk(fb(), ['match_unknown'], rng, '1.1', 'tar', pairs=_pairs_for(fixed, rng), skip=['Matches']))
+    cases.append(_mk(fb(), ['traj_unknown'], rng, '1.1', 'dir', del_paths=['sensors/rigs.txt'], skip=['Rigs']))
+    cases.append(_mk(fb(), [], rng, '1.1', 'dir', del_paths=['reconstruction/keypoints'], skip=['Observations']))
+    cases.append(_mk(fb(), [], rng, '1.1', 'dir', del_paths=['sensors/records_camera.txt'], skip=_skip_closure(['RecordsCamera'])[1:]))
+    if tier != 'quick':
+        for a, b in itertools.combinations(SKIPPABLE, 2):
+            cases.append(_mk(fb(), rng.sample(CLASSES[:-1], 3), rng, '1.1', rng.choice(modes2), skip=[a, b]))
+            cases.append(_mk(fb(), CLASSES[:-1], rng, '1.1', rng.choice(modes2), skip=_skip_closure([a, b])))
+    for i in range(40 if tier == 'quick' else 400):
+        base = _base_random(rng)
+        sub = rng.sample(CLASSES[:-1], rng.choice([0, 1, 2, 3, 5]))
+        if rng.random() < 0.15:
+            sub.append('collision')
+        sk = rng.sample(SKIPPABLE, rng.choice([1, 1, 2, 3, 4, 8]))
+        if rng.random() < 0.7:
+            sk = _skip_closure(sk)
+        if rng.random() < 0.15:
+            sk.insert(rng.randint(0, len(sk)), rng.choice(sk + ['Sensors']))       # duplicates, the no-op Sensors
+        ver = rng.choice(['1.1'] * 6 + ['1.0', '1.2', '1.10'])
+        mode = rng.choice(['dir', 'dir', 'tar', 'tar', 'tar-nohandler'])
+        pairs = _pairs_for(base, rng) if rng.random() < 0.15 else None
+        cases.append(_mk(base, sub, rng, ver, mode, pairs=pairs, skip=sk))
     return cases
 
 
@@ -879,11 +941,15 @@ def run_impl(case, ctx):
             raw = scan(root, case)
             exc, loaded = None, None
             try:
+                kw = {}
+                if case.get('skip'):          # a fresh list each time; left out (the default) when nothing is skipped
+                    import kapture
+                    kw['skip_list'] = [getattr(kapture, n) for n in case['skip']]
                 if case['mode'] == 'tar':
                     with kcsv.get_all_tar_handlers(root) as th:
-                        k = kcsv.kapture_from_dir(root, pairs_path, tar_handlers=th)
+                        k = kcsv.kapture_from_dir(root, pairs_path, tar_handlers=th, **kw)
                 else:
-                    k = kcsv.kapture_from_dir(root, pairs_path)
+                    k = kcsv.kapture_from_dir(root, pairs_path, **kw)
                 loaded = canon(k)
             except Exception as e:      # the implementation's exceptions are observed outcomes
                 exc = {'cls': type(e).__name__, 'msg': str(e)[:200]}
@@ -918,9 +984,28 @@ def _last_wins(rows, keyf):
     return d
 
 
+def _apply_skip(raw, skip):
+    """The directory as the loader was asked to see it: the parts named in skip_list are not to be loaded."""
+    if not skip:
+        return raw
+    s = set(skip)
+    out = dict(raw)
+    out['records'] = {kd: v for kd, v in raw['records'].items() if REC_CLASS[kd] not in s}
+    out['feat'] = {fk: v for fk, v in raw['feat'].items() if FEAT_CLASS[fk] not in s}
+    for name, key in (('Rigs', 'rigs'), ('Trajectories', 'traj'), ('Matches', 'matches'), ('Points3d', 'points'),
+                      ('Observations', 'obs')):
+        if name in s:
+            out[key] = None
+    return out
+
+
 def oracle(case, obs):
-    """Closure + completeness stated on the loaded object versus the raw directory contents."""
-    raw, L, exc = obs['raw'], obs['loaded'], obs['exc']
+    """Closure + completeness stated on the loaded object versus the raw directory contents.
+    With a skip list: closure is judged against the real directory (data files), completeness and the refusals
+    against the parts that were to be loaded; whether a skipped part is absent is not the business of the statement
+    (the correspondence with the model compares it)."""
+    full, L, exc = obs['raw'], obs['loaded'], obs['exc']
+    raw = _apply_skip(full, case.get('skip') or [])
     vc = _version_class(raw['version'])
     decl = {}
     for sid, kind in raw['sensors']:
@@ -959,14 +1044,14 @@ def oracle(case, obs):
     images = set(x for _, _, x in (L['records']['camera'] or []))
     for fk in FKINDS:
         for t, ims in (L['feat'][fk] or {}).items():
-            have = set((raw['feat'].get(fk) or {}).get(t, []))
+            have = set((full['feat'].get(fk) or {}).get(t, []))
             for im in ims:
                 if im not in images:
                     return f'dangling: {fk}/{t} entry for unknown image {im!r}'
                 if im not in have:
                     return f'dangling: {fk}/{t} entry {im!r} without a data file'
     for t, ps in (L['matches'] or {}).items():
-        have = set(map(tuple, (raw['matches'] or {}).get(t, [])))
+        have = set(map(tuple, (full['matches'] or {}).get(t, [])))
         for a, b in ps:
             if a not in images or b not in images:
                 return f'dangling: matches/{t} pair with unknown image'
@@ -1108,9 +1193,20 @@ def _enc_data(L):
                 kv.copt(None if L['obs'] is None else kv.clist(_obsrow(o) for o in L['obs']))))
 
 
+def _enc_skip(skip):
+    s = set(skip or [])
+    rec = ' | '.join(f'{RCTOR[kd]} => {kv.cbool(REC_CLASS[kd] in s)}' for kd in RKINDS)
+    feat = ' | '.join(f'{FCTOR[fk]} => {kv.cbool(FEAT_CLASS[fk] in s)}' for fk in FKINDS)
+    return ('{| sk_rigs := %s; sk_traj := %s; sk_rec := (fun k => match k with %s end); '
+            'sk_feat := (fun k => match k with %s end); sk_matches := %s; sk_points := %s; sk_obs := %s |}' % (
+                kv.cbool('Rigs' in s), kv.cbool('Trajectories' in s), rec, feat, kv.cbool('Matches' in s),
+                kv.cbool('Points3d' in s), kv.cbool('Observations' in s)))
+
+
 def encode(case, obs):
     exc = None if obs['exc'] is None else _cs(obs['exc']['cls'])
-    return '{| c_raw := %s; o_exc := %s; o_data := %s |}' % (_enc_raw(obs['raw']), kv.copt(exc), _enc_data(obs['loaded']))
+    return '{| c_raw := %s; c_skip := %s; o_exc := %s; o_data := %s |}' % (
+        _enc_raw(obs['raw']), _enc_skip(case.get('skip')), kv.copt(exc), _enc_data(obs['loaded']))
 
 
 # ---------------------------------------------------------------------------------------------- evidence helpers
@@ -1136,13 +1232,15 @@ def nontrivial(case, obs):
 def classify(case, obs):
     n_raw, n_l = _counts(obs)
     out = obs['exc']['cls'] if obs['exc'] else ('all-kept' if n_l == n_raw else 'dropped-some')
-    return f'{case["mode"]}/v={_version_class(obs["raw"]["version"])}/inj={min(len(case["classes"]), 4)}/{out}'
+    nskip = len(set(case.get('skip') or []))
+    sk = '' if not nskip else f'/skip={nskip if nskip < 3 else "3+"}'
+    return f'{case["mode"]}/v={_version_class(obs["raw"]["version"])}/inj={min(len(case["classes"]), 4)}{sk}/{out}'
 
 
 def describe(case, obs):
     n_raw, n_l = _counts(obs)
     return {'version_line': case['ver'], 'mode': case['mode'], 'classes': case['classes'],
-            'pairs_file': case['pairs'] is not None, 'deleted': case['inj']['del_paths'],
+            'pairs_file': case['pairs'] is not None, 'deleted': case['inj']['del_paths'], 'skip_list': case.get('skip') or [],
             'raw_entries': n_raw, 'loaded_entries': n_l, 'exception': obs['exc'],
             'raw_rigs': obs['raw']['rigs'], 'loaded_rigs': (obs['loaded'] or {}).get('rigs')}
 
@@ -1165,6 +1263,10 @@ def shrink(case):
     if case['pairs'] is not None:
         c = copy.deepcopy(case)
         c['pairs'] = None
+        yield c
+    for i in range(len(case.get('skip') or [])):
+        c = copy.deepcopy(case)
+        del c['skip'][i]
         yield c
     if case['mode'] != 'dir':
         c = copy.deepcopy(case)
